@@ -515,11 +515,143 @@ def matcher_leaves(ctx):
             verdict(ctx, R, ok, 'decompose_concat/is-the-flattened-factor-list-of-r', an.fn, {'calls': [T.show(calllog.call_term(c))[:120] for c in calls]}, cfg)
 
 
+# ------------------------------------------------------------------------------------------------ builder / table / store / string helpers
+
+def builder_helpers(ctx):
+    R = 'C13.H'
+    a0 = A(0)
+    SIC = 'automata::StateInConstruction::'
+    for cfg in ('dev', 'rel'):
+        an = analyse(ctx, cfg, SIC + 'make_partition', [], uninterpreted=lambda q: q.startswith('character_sets::'))
+        tr = ('fld', a0, 'transitions')
+        for o in an.outs:
+            t = an.ip.to_term(o.state, o.value) if o.kind == 'ret' else ('panic',)
+            ok = t[0] == 'call' and t[1] == 'character_sets::CharPartition::try_from_iter' and len(t[2]) == 1
+            if ok:
+                it = t[2][0]
+                ok = it[0] == 'iter' and it[1] == ('map',) and it[2] == tr and it[3] == I(0) and it[4] == T.typed(('len', tr), 'usize') and len(it[5]) == 1 and it[5][0][0] == 'closure'
+                if ok:
+                    an2 = analyse(ctx, cfg, it[5][0][1], [])
+                    ok = all(o2.kind == 'ret' and an2.ip.to_term(o2.state, o2.value) == ('fld', A(1), '0') for o2 in an2.outs) and bool(an2.outs)
+            verdict(ctx, R, ok, 'make_partition/is-try_from_iter-over-the-label-of-every-transition', an.fn, {'returned': T.show(t)[:240]}, cfg)
+
+
+def table_helpers(ctx):
+    R = 'C14.H'
+    a0 = A(0)
+    AU = 'automata::Automaton::'
+    for cfg in ('dev', 'rel'):
+        an = analyse(ctx, cfg, AU + 'char_set_next', [], uninterpreted=lambda q: q.startswith('character_sets::') or q.startswith('automata::'))
+        ip, fn = an.ip, an.fn
+        cs = ('call', 'character_sets::CharPartition::class_of_set', (('fld', A(1), 'classes'), A(2)))
+        kinds = set()
+        for o in an.outs:
+            v = variant_of(ip, o.state, o.value) if o.kind == 'ret' else None
+            ok = v is not None
+            if ok and v[0] == 'Ok':
+                ok = o.state.variants.get(cs) == 0 and ip.to_term(o.state, v[1][0]) == ('call', AU + 'class_next', (a0, A(1), ('vfld', cs, 'Ok', '0')))
+                kinds.add('ok')
+            elif ok:
+                ok = o.state.variants.get(cs) == 1 and ip.to_term(o.state, v[1][0]) == ('vfld', cs, 'Err', '0')
+                kinds.add('err')
+            verdict(ctx, R, ok, 'char_set_next/class-of-the-set-in-the-state-then-class_next-or-its-error', fn, {'returned': safe_show(ip, o)[:200] if o.kind == 'ret' else 'panic'}, cfg)
+        verdict(ctx, R, kinds == {'ok', 'err'}, 'char_set_next/cases-present', fn, None, cfg)
+        an = analyse(ctx, cfg, AU + 'default_successor', [])
+        ip, fn = an.ip, an.fn
+        d = ('fld', A(1), 'default_successor')
+        kinds = set()
+        for o in an.outs:
+            v = variant_of(ip, o.state, o.value) if o.kind == 'ret' else None
+            ok = v is not None
+            if ok and v[0] == 'Some':
+                ok = ip.to_term(o.state, v[1][0]) == ('elem', ('fld', a0, 'states'), T.typed(('vfld', d, 'Some', '0'), 'usize')) and ip.entails(o.state, discr(d, 1))
+                kinds.add('some')
+            elif ok:
+                ok = ip.entails(o.state, discr(d, 0))
+                kinds.add('none')
+            elif o.kind != 'ret':
+                ok = panic_role(o).startswith(('index', 'bounds'))
+            verdict(ctx, R, ok, 'Automaton::default_successor/state-of-the-default-id-iff-there-is-one', fn, None, cfg)
+        verdict(ctx, R, kinds == {'some', 'none'}, 'Automaton::default_successor/cases-present', fn, None, cfg)
+        # CompactTableBuilder::build: value and check cut at max(base) + alphabet_size (eval reads base[s] + c, c < alphabet_size),
+        # the other fields moved unchanged
+        an = analyse(ctx, cfg, 'compact_tables::CompactTableBuilder::build', [], uninterpreted=lambda q: q.endswith('::truncate') or q.endswith('Iterator::max'), _exact_casts=CASTS)
+        ip, fn = an.ip, an.fn
+        nret = 0
+        for o in an.outs:
+            if o.kind != 'ret':
+                ok = panic_role(o).startswith('unwrap')   # empty base array: num_states > 0 is asserted by new
+                verdict(ctx, R, ok, 'CompactTableBuilder::build/panic:%s' % panic_role(o).split('@')[0], fn, None, cfg)
+                continue
+            nret += 1
+            calls = o.state.calls
+            mx = [c for c in calls if c[0].endswith('Iterator::max')]
+            tr = [c for c in calls if c[0].endswith('::truncate')]
+            ok = len(mx) == 1 and len(tr) == 2 and mx[0][1][0][0] == 'iter' and mx[0][1][0][2] == ('fld', a0, 'base')
+            if ok:
+                m = T.typed(('vfld', calllog.call_term(mx[0]), 'Some', '0'), 'u32')
+                want = T.mk_add(m, T.fld(a0, 'alphabet_size', 'u32'))
+                tgts = sorted(T.show(c[1][0]) for c in tr)
+                ok = tgts == ['a0.check', 'a0.value'] and all(c[1][1] == want or ip.entails(o.state, eq(c[1][1], want)) for c in tr)
+            t = ip.to_term(o.state, o.value)
+            if ok:
+                ok = t[0] == 'mk' and t[3][0] == T.fld(a0, 'num_states', 'u32') and t[3][1] == T.fld(a0, 'alphabet_size', 'u32') and t[3][2] == ('fld', a0, 'default') and t[3][3] == ('fld', a0, 'base') and \
+                    all(x[0] == 'var' and x[1].startswith('havoc#') or 'truncate' in T.show(x) for x in (t[3][4], t[3][5])) and t[3][4] != t[3][5]
+            verdict(ctx, R, ok, 'CompactTableBuilder::build/cuts-value-and-check-at-max-base-plus-alphabet-and-moves-the-rest', fn, {'calls': [T.show(calllog.call_term(c))[:160] for c in calls], 'returned': T.show(t)[:300]}, cfg)
+        verdict(ctx, R, nret >= 1, 'CompactTableBuilder::build/returns', fn, None, cfg)
+
+
+def store_helpers(ctx):
+    R = 'C07.H'
+    for cfg in ('dev', 'rel'):
+        an = analyse(ctx, cfg, 'store::Store::<T>::new', [], uninterpreted=lambda q: True)
+        for o in an.outs:
+            t = an.ip.to_term(o.state, o.value) if o.kind == 'ret' else ('panic',)
+            # ids start at 0: the pairing (term at 2k, its complement at 2k+1) rests on it
+            ok = t[0] == 'mk' and t[3][1] == I(0) and t[3][0][0] == 'call' and t[3][0][1].endswith('HashMap::<K, V>::new')
+            verdict(ctx, R, ok, 'Store::new/empty-map-and-counter-0', an.fn, {'returned': T.show(t)[:160]}, cfg)
+
+
+def string_helpers(ctx):
+    R = 'C17.H'
+    MAX = ctx.crate('dev').const_value('smt_strings::MAX_CHAR')
+    a0 = A(0)
+    predicate(ctx, R, 'smt_strings::good_char', le(T.var('a0', 'u32'), I(MAX)))
+    for path, seq_ in (('smt_strings::good_string', a0), ('smt_strings::SmtString::is_good', ('fld', a0, 's'))):
+        for cfg in ('dev', 'rel'):
+            an = analyse(ctx, cfg, path, [])
+            ip, fn = an.ip, an.fn
+            nq = 0
+            for o in an.outs:
+                if o.kind != 'ret':
+                    verdict(ctx, R, False, '%s/panic' % path.rsplit('::', 1)[1], fn, {'leaf_constraints': pc_text(o)}, cfg)
+                    continue
+                v = o.value
+                if v == FALSE:
+                    continue    # a false answer never lets a bad string pass
+                ok = isinstance(v, tuple) and v[0] == 'quant' and v[1] == 'all' and v[2] == seq_ and v[4] == le(T.typed(('elem', seq_, v[3]), 'u32'), I(MAX))
+                nq += 1
+                verdict(ctx, R, ok, '%s/true-only-if-every-element-is-at-most-MAX_CHAR' % path.rsplit('::', 1)[1], fn, {'returned': T.show(v)[:160]}, cfg)
+            verdict(ctx, R, nq >= 1, '%s/quantifier-leaf-present' % path.rsplit('::', 1)[1], fn, None, cfg)
+    SS = '<smt_strings::SmtString as std::convert::'
+    for path, callee in ((SS + 'From<std::string::String>>::from', SS + 'From<&str>>::from'), (SS + 'From<&[u32; N]>>::from', SS + 'From<&[u32]>>::from')):
+        for cfg in ('dev', 'rel'):
+            an = analyse(ctx, cfg, path, [], uninterpreted=lambda q: q.startswith('<smt_strings::'))
+            for o in an.outs:
+                t = an.ip.to_term(o.state, o.value) if o.kind == 'ret' else ('panic',)
+                ok = t[0] == 'call' and t[1] == callee and len(t[2]) == 1 and 'a0' in T.show(t[2][0])
+                verdict(ctx, R, ok, '%s/delegates-to-the-sanitising-constructor' % path.split('From<')[1].split('>>')[0], an.fn, {'returned': T.show(t)[:160]}, cfg)
+    accessor(ctx, R, SS + 'AsRef<[u32]>>::as_ref', [(None, ('fld', a0, 's'), {})], name='as_ref')
+
+
 GROUPS = {
     'c01': [regex_predicates],
     'c04': [minimizer_structures],
+    'c07': [store_helpers],
     'c11': [partition_accessors],
-    'c14': [automaton_accessors],
+    'c13': [builder_helpers],
+    'c14': [automaton_accessors, table_helpers],
+    'c17': [string_helpers],
     'c16': [matcher_leaves],
     'c19': [queue_helpers],
 }
